@@ -13,6 +13,11 @@ def run(rep, args):
     rep.level = 'other'
     if KEYS:
         rep.run_proofs(KEYS, ['contracts.common', 'contracts.names', 'contracts.pybind', 'contracts.matlab_text', 'contracts.c06'])
+    # the text view of the MATLAB call sites (guards and ids of one overload sit in one branch): separate module set, because
+    # contracts/c06_sites.py replaces the id view that contracts/c05.py gives of the same functions
+    from contracts.c06_sites import C06_SITE_KEYS
+    rep.run_proofs(C06_SITE_KEYS, ['contracts.common', 'contracts.names', 'contracts.pybind', 'contracts.matlab_text', 'contracts.c05',
+                                   'contracts.c06_sites'])
     pr = rep.classify(rebaseline=args.rebaseline)
     n = 150 if rep.tier == 'quick' else 2500
     if pr['demoted'] or pr['regressions']:
